@@ -156,6 +156,22 @@ func cmdCheck(args []string) {
 		}
 	}
 	e.Discharge(obs, sym.DischargeOpts{TimeoutS: timeout, NeedAgree: agree, Jobs: *jobs, Models: true, DumpDir: filepath.Join(replayDir, "smt")})
+	// Queries that timed out are run once more, a few at a time and with three times the
+	// timeout: on a loaded machine (three solver processes per query, several queries at a
+	// time) a query that normally takes seconds can exceed the quick timeout, and an
+	// undecided obligation would be reported as a violation although nothing changed.
+	{
+		var again []*sym.Obligation
+		for _, ob := range obs {
+			if strings.HasPrefix(ob.Status, "undecided") && ob.Result != nil && strings.Contains(ob.Result.Status+ob.Status, "timeout") {
+				again = append(again, ob)
+			}
+		}
+		if len(again) > 0 && len(again) <= 40 {
+			fmt.Printf("retrying %d timed-out queries with timeout %ds\n", len(again), 3*timeout)
+			e.Discharge(again, sym.DischargeOpts{TimeoutS: 3 * timeout, NeedAgree: agree, Jobs: 3, Models: true, NoBatch: true, DumpDir: filepath.Join(replayDir, "smt")})
+		}
+	}
 	if *tier == "thorough" {
 		// in the thorough tier a single-solver answer is accepted only after a second
 		// run with a longer timeout failed to produce agreement
@@ -378,7 +394,11 @@ func cmdCheck(args []string) {
 			cases = 200000
 		}
 		n, obs, raw := runBounded(name, *repo, *verif, replayDir, seed, cases)
-		rec := map[string]interface{}{"function": name, "kind": "bounded differential check against an independent reference (not a proof)", "cases": n, "seed": seed}
+		kind := "bounded differential check against an independent reference (not a proof)"
+		if name == "stdlibAssumptions" {
+			kind = "bounded conformance test of assumed library contracts: the real library functions are run on sampled inputs and the assumed postconditions must hold (testing of assumptions, not a proof)"
+		}
+		rec := map[string]interface{}{"function": name, "kind": kind, "cases": n, "seed": seed}
 		switch {
 		case obs != "":
 			rec["result"] = "disagreement"
@@ -433,7 +453,7 @@ func cmdCheck(args []string) {
 		"tool_errors": e.Errors,
 		"bounded_stand_ins": bounded,
 		"engine_stats": e.Stats,
-		"explanation": "Obligations are generated by symbolic execution of go/ssa (naive form) of /repo's current working tree against the //@ contracts in contracts_verif.go; each is decided by an SMT query (bitvector-exact integers). 'discharged' counts obligations whose every sub-query was answered unsat.",
+		"explanation": "Obligations are generated by symbolic execution of go/ssa (naive form) of /repo's current working tree against the //@ contracts in contracts_verif.go; each is decided by an SMT query (bitvector-exact integers). 'discharged' counts obligations whose every sub-query was answered unsat. Clause instances that the engine's own simplifier reduces to true on a path (typical for call-trace clauses, whose facts are concrete per path) are not queries; their number is engine_stats.obligations-trivial + obligations-by-literals + obligations-known.",
 	}
 	writeEvidence(evPath, *prop, *tier, seed, level, cov, sym.GlobalAssumptions, time.Since(t0).Seconds(), violations)
 	fmt.Printf("property %s: %d obligations, %d discharged, %d known findings, %d violations, %.1fs\n", *prop, len(obs), discharged, len(knownHit), violations, time.Since(t0).Seconds())
@@ -512,6 +532,13 @@ var boundedDrivers = map[string][]string{
 	"C11": {"secWebSocketAccept", "headerTokens"},
 	"C13": {"secWebSocketAccept", "headerTokens"},
 	"C14": {"headerTokens"},
+	// conformance test of assumed library contracts (encoding/json, bytes.Buffer, io.ReadAll,
+	// io.ReadFull, compress/flate error behaviour, bufio.Writer, strconv.Itoa): testing of
+	// assumptions, not proof
+	"C04": {"stdlibAssumptions"},
+	"C08": {"stdlibAssumptions"},
+	"C18": {"stdlibAssumptions"},
+	"C19": {"stdlibAssumptions"},
 }
 
 // runBounded runs one bounded driver; it returns the number of cases, the observation if the
